@@ -1237,9 +1237,9 @@ GENERIC_FILES = ['permuta/patterns/perm.py', 'permuta/patterns/meshpatt.py', 'pe
 
 
 def variants():
-    from ..selftest import generic_silent
+    from ..selftest import generic_equiv, generic_silent
 
-    return _variants() + generic_silent(GENERIC_FILES)
+    return _variants() + generic_silent(GENERIC_FILES) + generic_equiv(GENERIC_FILES)
 
 
 def _variants():
